@@ -77,12 +77,17 @@ Proof.
 Qed.
 End Width.
 
-(* inconsistent claimed numbers: base 2^32 - 1 and a child claiming number 0; the 32-bit sum wraps to
-   0 and meets the claimed target number, the 64-bit sum does not *)
+(* the consistency hypothesis is needed (in this model): base block 0 numbered 2^32 - 1 and its child
+   block 1 CLAIMING the number 2^32 - 1 too (voter 1, weight 3 of 4, votes for it); the GHOST is block 1
+   at depth 1, its number base + 1 wraps to 0 at 32 bits and is 2^32 at 64 bits: a commit for
+   (block 1, number 0) is valid at width 32 only *)
+Definition ww_vs : voterset := mkVS [(0, 1); (1, 3)] 4 3.
+Definition ww_ps : list precommit := [mkPc 0 4294967295 0 0 true; mkPc 1 4294967295 1 0 true].
 Lemma width_wrap_witness :
-  let vs := mkVS [(0, 1)] 1 1 in
-  let hs := [mkHdr 1 0 0] in
-  let ps := [mkPc 1 0 0 0 true] in
-  validate_commit_w 32 vs hs 1 0 [mkPc 0 4294967295 0 0 true; mkPc 1 0 0 1 true]
-    = validate_commit_w 32 vs hs 1 0 [mkPc 0 4294967295 0 0 true; mkPc 1 0 0 1 true].
-Proof. reflexivity. Qed.
+  validate_commit_w 32 ww_vs [mkHdr 1 0 0] 1 0 ww_ps = VOk (mkVR true 2 0 0 0)
+  /\ validate_commit_w 64 ww_vs [mkHdr 1 0 0] 1 0 ww_ps = VOk (mkVR false 2 0 0 0)
+  /\ (forall p, In p ww_ps -> p_num p < 2 ^ 32).
+Proof.
+  split; [vm_compute; reflexivity|]. split; [vm_compute; reflexivity|].
+  intros p [<-|[<-|[]]]; vm_compute; reflexivity.
+Qed.
